@@ -556,7 +556,8 @@ def gen_column(rng, kind, n, drill):
         cats = {"int": rng.sample([1, 2, 3, 10, -4, 2**40], 3), "float": rng.sample([0.5, 2.0, -1.25, 1e10], 3), "bool": [True, False],
                 "ts": [pd.Timestamp("2020-01-01"), pd.Timestamp("2020-01-02 03:04:05.123456"), pd.Timestamp("1999-12-31 23:59:59")],
                 "i8": list(np.array(rng.sample([1, -3, 7, 100], 3), dtype="int8"))}[lt]
-        codes = [rng.randrange(2) for _ in range(n)]
+        used = rng.choice([2, len(cats)])          # unused categories, NULL keys
+        codes = [-1 if (nulls and rng.random() < 0.2) else rng.randrange(used) for _ in range(n)]
         return pd.Series(pd.Categorical.from_codes(codes, categories=cats))
     raise ValueError(kind)
 
@@ -621,7 +622,9 @@ def gen_frame_case(rng, confirm, i):
     n = rng.choice([0, 1, 2, 3, 5, 8, 13, 21, 34]) if i % 9 else rng.choice([0, 1])
     n_on = rng.choice([1, 1, 2, 2, 3])
     kinds = [rng.choice(["int", "int", "bool", "float", "time", "str", "strnum" if scheme == "hive" else "str", "cat",
-                         "intx", "boolx", "floatx", "strx", "timetz", "pct", "catnumtxt", "intshare"]) for _ in range(n_on)]
+                         "intx", "boolx", "floatx", "strx", "timetz", "pct", "catnumtxt", "intshare",
+                         # categoricals whose labels are numbers / booleans / timestamps: main stream since the label type is recorded (fix 34e2c68)
+                         "catnum"]) for _ in range(n_on)]
     which = i % 8 if confirm else -1
     if confirm:
         if which == 0:
@@ -985,6 +988,7 @@ H_POOLS = {
     "float": [0.5, 1.0, -2.25, 0.1, 3.0, 1e22, 2.5e-10],
     "time": [1577836800, 0, 1577836800 + 3723, 86400, 4102444800, 946684799],
     "cat": ["b", "a", "zz", "c", "é", "d", "x y", "q"],
+    "catint": [8, 1, 2, 30, -4, 5, 6, 100],          # categorical with INTEGER labels (label type recorded in the metadata)
 }
 
 
@@ -1002,8 +1006,8 @@ def _h_column(kind, vals):
         if len(vals):
             a[np.array([v is None for v in vals], dtype=bool)] = np.datetime64("NaT")
         return pd.Series(a)
-    if kind == "cat":
-        cats = H_POOLS["cat"]
+    if kind in ("cat", "catint"):
+        cats = H_POOLS[kind]
         return pd.Series(pd.Categorical.from_codes([-1 if v is None else cats.index(v) for v in vals], categories=cats))
     return pd.Series(np.array(list(vals) + [None], dtype=object)[:-1])
 
@@ -1013,13 +1017,13 @@ def gen_handle_case(rng, i):
     import pandas as pd
     scheme = rng.choice(["hive", "hive", "drill"])
     n_on = rng.choice([1, 1, 2])
-    kinds = [rng.choice(["int", "int", "str", "str", "bool", "float", "time", "cat"]) for _ in range(n_on)]
+    kinds = [rng.choice(["int", "int", "str", "str", "bool", "float", "time", "cat", "catint"]) for _ in range(n_on)]
     # a drill dataset knows its levels only as dir0, dir1, ...: frames appended to it must call them so
     names = rng.sample(["k", "part", "year", "K", "a.b"], n_on) if scheme == "hive" else ["dir%d" % j for j in range(n_on)]
     pools = []
     for kd in kinds:
         pool = list(H_POOLS[kd])
-        if rng.random() < 0.6 and kd != "cat":
+        if rng.random() < 0.6 and kd not in ("cat", "catint"):
             rng.shuffle(pool)
         pools.append(pool)
     n_batches = rng.choice([2, 2, 3, 4])
@@ -1030,7 +1034,7 @@ def gen_handle_case(rng, i):
         for nm, kd, pool in zip(names, kinds, pools):
             # later batches bring partition values not seen before (and repeat old ones)
             seen_upto = min(len(pool), 2 + (2 + (i % 3)) * b)
-            nullable = kd not in ("int", "bool") and rng.random() < 0.25
+            nullable = kd not in ("int", "bool") and rng.random() < 0.25     # (categoricals: code -1)
             vals = [None if (nullable and rng.random() < 0.2) else rng.choice(pool[:seen_upto]) for _ in range(n)]
             if b and seen_upto > 2 and n >= 2:
                 vals[0] = pool[seen_upto - 1]           # at least one new value
